@@ -30,6 +30,7 @@ func engineORD(w *World, tier string) *EngineResult {
 	ordKey(w, r)
 	ordEdge(w, r)
 	ordOwn(w, r)
+	ordMark(w, r)
 	r.finish()
 	return r
 }
